@@ -143,3 +143,51 @@ V("twin: inverse through the math helper", "C07", BASE, "            inv = trans
 V("reflection: minus dropped", "C08", TRANS, "    return translation(x) * p * translation(-x)", "    return translation(x) * p * translation(x)", "E8", "reflection", quick=True)
 V("RegularPolygon: minus dropped", "C08", SHAPES, "            t = translation(center) * t * translation(-center)", "            t = translation(center) * t * translation(center)", "E8", "RegularPolygon.__init__")
 V("twin: X * M * X.inverse()", "C08", TRANS, "    return translation(x) * p * translation(-x)", "    t = translation(x)\n    return t * p * t.inverse()", "silent")
+
+# ------------------------------------------------------------------------------------------------ C12 (E1)
+V("rotation: in-place division on a view of the axis argument", "C12", TRANS, "    a = a / np.linalg.norm(a)\n", "    a /= np.linalg.norm(a)\n", "E1.mem", "rotation", quick=True)
+V("reflection: in-place division on a view of the mirror", "C12", TRANS, "    v = v / np.linalg.norm(v)  # type: ignore[operator]", "    v /= np.linalg.norm(v)", "E1.mem", "reflection")
+V("_normalize_array: astype(copy=False) then divide in place", "C12", POINT, "        result = array.astype(dtype)\n", "        result = array.astype(dtype, copy=False)\n", "E1.mem", "_normalize_array")
+V("base_point writes into self.array", "C12", POINT,
+  "        result = np.zeros_like(self.array)\n        result[z_zero, 2] = 1", "        result = self.array\n        result[z_zero, 2] = 1", "E1.mem", "LineTensor.base_point")
+V("adjugate: basic instead of advanced indexing", "C12", MATH, "        result = A[..., [[1, 0], [1, 0]], [[1, 1], [0, 0]]]\n", "        result = A[..., ::-1, ::-1]\n", "E1.mem", "adjugate")
+V("write through a cached epsilon tensor", "C12", TRANS, "    e = LeviCivitaTensor(dimension, False)\n", "    e = LeviCivitaTensor(dimension, False)\n    e.array *= 1\n", "E1.mem", "rotation")
+V("write into the module constant I", "C12", POINT, "        l1 = join(I, pt, _normalize_result=False)\n", "        I.array[2] = 0\n        l1 = join(I, pt, _normalize_result=False)\n", "E1.mem", "LineTensor.mirror")
+V("write through the return value of infty_hyperplane", "C12", POINT, "        x = self.meet(infty_hyperplane(self.dim))\n        return join(x, through)",
+  "        h = infty_hyperplane(self.dim)\n        h.array[-1] = 1\n        x = self.meet(h)\n        return join(x, through)", "E1.mem", "SubspaceTensor.parallel")
+V("out= aimed at the argument", "C12", POINT, "        return PointCollection.from_array(matvec(m, self.array))", "        return PointCollection.from_array(matvec(m, self.array, out=self.array))", "E1.mem", "PointTensor._matrix_transform")
+V("in-place update of the cached plane's array", "C12", SHAPES, "            coplanar = self._plane.contains(other)\n", "            self._plane.array[...] += 0\n            coplanar = self._plane.contains(other)\n", "E1.mem", "PolygonTensor.contains")
+V("D3 regression: projection writes into the cached planes", "C12", SHAPES, "                e = type(e)(e)\n", "", "E1.mem", "PolygonTensor._normalized_projection")
+V("Sphere: negate the center's coordinates in place", "C12", CURVE, "        c = -center.normalized_array\n        m = np.eye(center.shape[0]", "        c = center.normalized_array\n        c *= -1\n        m = np.eye(center.shape[0]", "E1.mem", "Sphere.__init__")
+V("__apply__ rebinds the array of the receiver", "C12", BASE, "        result = self.copy()\n        result.array = diagram.calculate().array\n        return result", "        self.array = diagram.calculate().array\n        return self", "E1.attr", "Tensor.__apply__")
+V("module-level memo dict filled by det", "C12", MATH, "def det(A: npt.ArrayLike) -> npt.NDArray[np.number]:", "_SEEN: dict = {}\n\n\ndef det(A: npt.ArrayLike) -> npt.NDArray[np.number]:", "E1.cont", "det",
+  extra=[(MATH, "    A = np.asarray(A)\n    _assert_square_matrix(A)\n    n = A.shape[-1]\n\n    if n == 2:\n        return A[..., 0, 0] * A[..., 1, 1]",
+          "    A = np.asarray(A)\n    _assert_square_matrix(A)\n    n = A.shape[-1]\n    _SEEN[n] = A\n\n    if n == 2:\n        return A[..., 0, 0] * A[..., 1, 1]")])
+V("cached epsilon depends on a parameter outside the key", "C12", BASE, "            array[tuple(indices)] = np.prod(diff, axis=0)\n", "            array[tuple(indices)] = np.prod(diff, axis=0) * (1 if covariant else -1)\n", "E1.cache", "LeviCivitaTensor.__init__")
+V("cached array written after it was stored", "C12", BASE, "            self._cache[size] = array\n", "            self._cache[size] = array\n            array *= 1\n", "E1.mem", "LeviCivitaTensor.__init__")
+V("contains: direction buffer aliased to the query point", "C12", SHAPES, "            direction = np.zeros_like(other.array)\n", "            direction = other.array\n", "E1.mem", "PolygonTensor.contains")
+V("global counter", "C12", OPS, "def is_coplanar(*args: PointTensor | LineTensor, tol: float = EQ_TOL_ABS) -> npt.NDArray[np.bool_]:",
+  "_CALLS = 0\n\n\ndef is_coplanar(*args: PointTensor | LineTensor, tol: float = EQ_TOL_ABS) -> npt.NDArray[np.bool_]:", "E1.global", "is_coplanar",
+  extra=[(OPS, "    n = args[0].dim + 1\n    result = np.isclose(det(", "    global _CALLS\n    _CALLS = _CALLS + 1\n    n = args[0].dim + 1\n    result = np.isclose(det(")])
+V("twin: m += m.T rewritten as rebinding", "C12", CURVE, "        m = outer(e.array, f.array)\n        m += m.T", "        m = outer(e.array, f.array)\n        m = m + m.T", "silent")
+V("twin: copy then write", "C12", POINT, "        result = np.zeros_like(self.array)\n        result[z_zero, 2] = 1", "        result = self.array.copy()\n        result[...] = 0\n        result[z_zero, 2] = 1", "silent")
+V("twin: private fill helper called with a fresh buffer", "C12", SHAPES, "            direction[~ind, 0] = 1\n", "            _set_first(direction, ~ind)\n", "silent",
+  extra=[(SHAPES, "class PolytopeTensor(PointLikeTensor, ABC):", "def _set_first(buf: np.ndarray, mask: np.ndarray) -> None:\n    buf[mask, 0] = 1\n\n\nclass PolytopeTensor(PointLikeTensor, ABC):")])
+V("twin: write into a boolean-mask copy", "C12", POINT, "        return np.all(np.isreal(self.normalized_array), axis=-1)", "        t = self.array[self.isinf]\n        t[...] = 0\n        return np.all(np.isreal(self.normalized_array), axis=-1)", "silent")
+V("twin: new private memo attribute", "C12", CURVE, "        c = self.array[:-1, -1] / self.array[0, 0]\n        return np.sqrt(c.dot(c) - self.array[-1, -1] / self.array[0, 0])",
+  "        c = self.array[:-1, -1] / self.array[0, 0]\n        self._radius_memo = np.sqrt(c.dot(c) - self.array[-1, -1] / self.array[0, 0])\n        return self._radius_memo", "silent")
+V("twin: in-place arithmetic on a fresh array in a new function", "C12", MATH, "def _assert_numerical_array(a: np.ndarray) -> None:",
+  "def _scaled(a: np.ndarray) -> np.ndarray:\n    b = a * 2\n    b += 1\n    b[0] = 0\n    return b\n\n\ndef _assert_numerical_array(a: np.ndarray) -> None:", "silent")
+
+# ------------------------------------------------------------------------------------------------ C05
+V("first add_edge guard deleted", "C05", BASE, '        if len(free_source) == 0 or len(free_target) == 0:\n            raise TensorComputationError("Could not add the edge because no indices are left.")\n', "", "E7.b", "add_edge", quick=True,
+  extra=[(BASE, "        if source.shape[i] != target.shape[j]:", "        if len(free_source) < 0 or source.shape[i] != target.shape[j]:")])
+V("emptiness guard moved after the pops", "C05", BASE,
+  '        if len(free_source) == 0 or len(free_target) == 0:\n            raise TensorComputationError("Could not add the edge because no indices are left.")\n\n        # Third step: Pick some free indices\n        i = free_source.pop(0)\n        j = free_target.pop(0)\n',
+  '        # Third step: Pick some free indices\n        i = free_source.pop(0)\n        j = free_target.pop(0)\n\n        if len(free_source) == 0 or len(free_target) == 0:\n            raise TensorComputationError("Could not add the edge because no indices are left.")\n', "E7.b", "add_edge")
+V("TensorComputationError -> IndexError", "C05", BASE, 'raise TensorComputationError("Could not add the edge because no indices are left.")', 'raise IndexError("Could not add the edge because no indices are left.")', "E7.a", "TensorComputationError",
+  extra=[(BASE, "            raise TensorComputationError(\n                f\"Dimension of tensors is inconsistent", "            raise IndexError(\n                f\"Dimension of tensors is inconsistent")])
+V("Kronecker delta built in place from the cached epsilon", "C05", BASE, "            array = np.tensordot(e.array, e.array, 0)  # type: ignore[arg-type]\n", "            e.array *= 1\n            array = np.tensordot(e.array, e.array, 0)  # type: ignore[arg-type]\n", "E1.mem", "KroneckerDelta.__init__")
+V("cache key widened silently", "C05", BASE, "            array[tuple(indices)] = np.prod(diff, axis=0)\n", "            array[tuple(indices)] = np.prod(diff, axis=0) * (1 if covariant else -1)\n", "E1.cache", "LeviCivitaTensor.__init__")
+V("twin: cache fill with renamed local", "C05", BASE, "            array = np.zeros(size * [size], dtype=np.int8)\n            array[tuple(indices)] = np.prod(diff, axis=0)\n\n            self._cache[size] = array",
+  "            eps = np.zeros(size * [size], dtype=np.int8)\n            eps[tuple(indices)] = np.prod(diff, axis=0)\n            array = eps\n\n            self._cache[size] = array", "silent")
